@@ -30,6 +30,15 @@ def spec_mutants(work):
         violated = "is violated" in out
         print("spec mutant %-18s violation found=%s expected=%s" % (cfg, violated, expect))
         ok = ok and (violated == expect)
+    # the known finding F11 is a property of the design: TLC finds it in the model
+    src = os.path.join(VERIF, "spec", "mc", "coopnet")
+    for cfg, expect in (("MC_coopnet.cfg", False), ("MC_coopnet_f11.cfg", True)):
+        wd = os.path.join(work, cfg)
+        shutil.copytree(src, wd)
+        rc, out, wall = runner.tlc(wd, "MC_coopnet", cfg=cfg, workers="8")
+        violated = "Invariant NetBounds is violated" in out
+        print("design-level F11 %-20s NetBounds violated=%s expected=%s" % (cfg, violated, expect))
+        ok = ok and (violated == expect)
     return ok
 
 
